@@ -486,6 +486,94 @@ func workCorpus() []Case {
 	}
 }
 
+// linkBuildCorpus: package directories whose BUILD.caco3 is a SYMBOLIC LINK -
+// to the build file of another package (the same text then declares rules of
+// BOTH packages, each resolved against its own directory), to a file outside
+// src, to nothing, to a directory - with sub_builds below them.  The build
+// file of a package is what the path resolves to: errors in a linked build
+// file are errors, rules declared through one are rules.
+func linkBuildCorpus() []Case {
+	// relative spellings only, so that the text means the same in every package that links it
+	shared := func(dir string, withSub bool) []Decl {
+		ds := []Decl{bundle(dir, "leaf", nil, nil), bundle(dir, "shared", []string{dir + "/leaf"}, nil)}
+		ds[1].Deps = []string{"leaf"}
+		if withSub {
+			ds = append(ds, sub("s", dir+"/s"))
+		}
+		return ds
+	}
+	l := func(xs ...string) []string { return xs }
+	var cs []Case
+	mk := func(w *ws, first []string, seq ...[]string) {
+		c := w.mk("corpus-linkbuild", first...)
+		c.Seq = seq
+		cs = append(cs, c)
+	}
+	{ // q/BUILD.caco3 -> ../p/BUILD.caco3 ; both have a sub-build directory s of their own
+		w := &ws{roots: []string{"p", "q"}}
+		w.file("p").Decls = shared("p", true)
+		w.add("p/s", bundle("p/s", "deep", []string{"p/shared"}, nil))
+		qf := w.file("q")
+		qf.Decls, qf.Link = shared("q", true), "../p/BUILD.caco3"
+		w.add("q/s", bundle("q/s", "deep", []string{"q/shared", "p/leaf"}, nil))
+		w.add("q/s", bundle("q/s", "other", nil, nil))
+		mk(w, l("q/shared"), l("p/shared"), l("q/s/deep"), l("p/s/deep"), l("q/leaf", "p/leaf"), l("q/nothing"), l("q/shared"))
+	}
+	{ // the shared file lives outside src and is linked into two packages; one of them is a sub-build
+		w := &ws{roots: []string{"a"}}
+		af := w.file("a")
+		af.Decls, af.Link, af.TargetAt = shared("a", true), "../../outside/shared.caco3", "outside/shared.caco3"
+		sf := w.file("a/s")
+		sf.Decls, sf.Link = shared("a/s", false), "../../../outside/s.caco3"
+		sf.TargetAt = "outside/s.caco3"
+		mk(w, l("a/shared"), l("a/s/shared"), l("a/s/leaf", "a/leaf"), l("a/s/s/leaf"), l("a/shared"))
+	}
+	{ // a linked build file with a duplicated rule, and one with an unnamed rule: errors, whatever is asked for
+		w := &ws{roots: []string{"p", "q"}}
+		w.add("p", bundle("p", "ok", nil, nil))
+		qf := w.file("q")
+		qf.Decls = []Decl{bundle("q", "twice", nil, nil), bundle("q", "twice", nil, nil)}
+		qf.Link, qf.TargetAt = "../../outside/dup.caco3", "outside/dup.caco3"
+		mk(w, l("p/ok"), l("q/twice"), l("p/ok"))
+		w2 := &ws{roots: []string{"p", "q"}}
+		w2.add("p", bundle("p", "ok", nil, nil))
+		qf2 := w2.file("q")
+		qf2.Decls = []Decl{unnamed("."), bundle("q", "fine", nil, nil)}
+		qf2.Link, qf2.TargetAt = "../../outside/unnamed.caco3", "outside/unnamed.caco3"
+		mk(w2, l("p/ok"), l("q/fine"))
+	}
+	{ // a cycle and a dangling dependency declared through a linked build file
+		w := &ws{roots: []string{"p", "q"}}
+		w.add("p", bundle("p", "ok", []string{"q/x"}, nil))
+		qf := w.file("q")
+		qf.Decls = []Decl{bundle("q", "x", []string{"q/y"}, nil), bundle("q", "y", []string{"q/x"}, nil),
+			bundle("q", "d", []string{"q/gone"}, nil), bundle("q", "fine", nil, nil)}
+		qf.Link, qf.TargetAt = "../../outside/cyc.caco3", "outside/cyc.caco3"
+		mk(w, l("q/fine"), l("p/ok"), l("q/d"), l("q/fine"))
+	}
+	{ // a dangling link and a link to a directory: no build file there
+		w := &ws{roots: []string{"p", "q", "r"}}
+		w.add("p", bundle("p", "ok", nil, nil))
+		w.add("p", bundle("p", "wants", []string{"q/x"}, nil))
+		qf := w.file("q")
+		qf.Link = "nowhere"
+		rf := w.file("r")
+		rf.Link = "sub"
+		w.add("r/sub", bundle("r/sub", "unreached", nil, nil)) // not a sub-build of anything: never read
+		mk(w, l("p/ok"), l("p/wants"), l("q/x"), l("r/sub/unreached"), l("p/ok"))
+	}
+	{ // a chain of links: q -> r -> p
+		w := &ws{roots: []string{"p", "q", "r"}}
+		w.file("p").Decls = shared("p", false)
+		rf := w.file("r")
+		rf.Decls, rf.Link = shared("r", false), "../p/BUILD.caco3"
+		qf := w.file("q")
+		qf.Decls, qf.Link = shared("q", false), "../r/BUILD.caco3"
+		mk(w, l("q/shared"), l("r/shared", "p/shared"), l("q/leaf"))
+	}
+	return cs
+}
+
 // seqCase: a random workspace (often with a dangling dependency or a cycle)
 // and 2-4 further target lists built on the same Builder.
 func seqCase(r *hx.Rng) Case {
@@ -915,12 +1003,20 @@ func genCases(seed uint64, thorough bool) []Case {
 	}
 	cs = append(cs, seqCorpus()...)
 	cs = append(cs, workCorpus()...)
+	cs = append(cs, linkBuildCorpus()...)
 	nseq := 120
 	if thorough {
 		nseq = 1500
 	}
 	for i := 0; i < nseq; i++ {
 		cs = append(cs, seqCase(r))
+	}
+	for i := range cs {
+		for j := range cs[i].Files {
+			if cs[i].Files[j].Decls == nil {
+				cs[i].Files[j].Decls = []Decl{}
+			}
+		}
 	}
 	for i := range cs {
 		cs[i].I = i
